@@ -10,6 +10,8 @@ import (
 	"os"
 	"strconv"
 	"strings"
+
+	"golang.org/x/tools/go/ssa"
 )
 
 const KLit Kind = 100 // untyped literal, T holds decimal text / "nil"
@@ -404,6 +406,15 @@ func (ev *Env) addrOf(e *Expr) Val {
 	case "un":
 		if e.S == "*" {
 			return ev.eval(e.Args[0])
+		}
+	case "id":
+		// address of a package-level variable
+		if ev.pkg != nil {
+			if sp := ev.v.spkgs[ev.pkg.Path()]; sp != nil {
+				if g, ok := sp.Members[e.S].(*ssa.Global); ok {
+					return refVal(ev.v.globalAddr(ev.c, g), g.Type())
+				}
+			}
 		}
 	}
 	efail("cannot take address of %s", e.String())
@@ -839,6 +850,27 @@ func (ev *Env) call(e *Expr) Val {
 			}
 		}
 		return o.eval(e.Args[0])
+	case "all", "any":
+		// all(j, lo, hi, body): finite conjunction over lo <= j < hi (literal bounds)
+		if len(e.Args) != 4 || e.Args[0].Op != "id" || e.Args[1].Op != "lit" || e.Args[2].Op != "lit" {
+			efail("all(j, lo, hi, body) needs an identifier and literal bounds")
+		}
+		lo, _ := strconv.Atoi(e.Args[1].S)
+		hi, _ := strconv.Atoi(e.Args[2].S)
+		var ts []Term
+		for k := lo; k < hi; k++ {
+			n := ev.child()
+			n.vars[e.Args[0].S] = Val{K: KLit, T: strconv.Itoa(k)}
+			b := n.eval(e.Args[3])
+			if b.K != KBool {
+				efail("all(): body not boolean")
+			}
+			ts = append(ts, b.T)
+		}
+		if name == "any" {
+			return boolVal(or(ts...))
+		}
+		return boolVal(and(ts...))
 	case "prev":
 		if ev.prev == nil {
 			efail("prev() outside a loop step clause")
